@@ -19,6 +19,7 @@ Minimal(S) == {o \in S : ~\E p \in S : p.ret < o.call}
 
 \* one step of operation o on register value reg: [ok, reg, rest] where rest is o itself with an advanced stage (ensure) or "done"
 StepOp(o, reg) ==
+    \* (an operation that reported an error -- only operations hit by an injected fault may -- is handled by StepErr)
     IF o.api = "set" THEN [ok |-> TRUE, reg |-> o.val, done |-> TRUE, stage |-> 0]
     ELSE IF o.api = "put" THEN [ok |-> TRUE, reg |-> IF reg = "none" THEN o.val ELSE reg, done |-> TRUE, stage |-> 0]
     ELSE IF o.api = "get" THEN [ok |-> o.res = reg, reg |-> reg, done |-> TRUE, stage |-> 0]
@@ -29,10 +30,16 @@ StepOp(o, reg) ==
         ELSE IF o.stage = 2 THEN [ok |-> TRUE, reg |-> IF reg = "none" THEN o.val ELSE reg, done |-> FALSE, stage |-> 3]
         ELSE [ok |-> o.res = reg, reg |-> reg, done |-> TRUE, stage |-> 0]
 
+\* An operation that returned an error may or may not have taken effect -- but whatever it did is one of the two things the same call
+\* does when it succeeds (in particular it never removes the entry)
+StepErr(o, reg) ==
+    {[ok |-> TRUE, reg |-> reg, done |-> TRUE, stage |-> 0]} \cup
+    (IF o.api \in {"set", "put", "ensure"} THEN {[StepOp([o EXCEPT !.api = IF @ = "ensure" THEN "put" ELSE @], reg) EXCEPT !.done = TRUE]} ELSE {})
+Steps(o, reg) == IF o.res = "error" THEN StepErr(o, reg) ELSE {StepOp(o, reg)}
+
 RECURSIVE Lin(_, _)
 Lin(S, reg) ==
-    S = {} \/ \E o \in Minimal(S) :
-                LET r == StepOp(o, reg) IN
+    S = {} \/ \E o \in Minimal(S) : \E r \in Steps(o, reg) :
                 r.ok /\ Lin(IF r.done THEN S \ {o} ELSE (S \ {o}) \cup {[o EXCEPT !.stage = r.stage]}, r.reg)
 
 Linearizable(ops, init) == Lin(ops, init)
